@@ -385,7 +385,7 @@ def _load_order(repo_src: Path, rname: str) -> list[str]:
 def extract_all(repo_src: Path) -> dict:
     objs = {n: extract_object(repo_src, n) for n in OBJ_MODULES}
     roots = {n: extract_root(repo_src, n) for n in ROOT_MODULES}
-    return {"objects": objs, "roots": roots}
+    return {"objects": objs, "roots": roots, "dispatch": extract_dispatch(repo_src)}
 
 
 def masks(ex: dict) -> tuple[dict, dict]:
